@@ -15,8 +15,9 @@ type LoopRes struct {
 	Pos        token.Pos
 	Status     Status
 	Why        string
-	InputBound bool // the bound depends on an input symbol
-	Depth      int  // nesting depth (1 = outermost)
+	InputBound bool     // the bound depends on an input symbol
+	Depth      int      // nesting depth (1 = outermost)
+	Calls      []string // names of the statically resolved functions called in the loop itself, nested loops excluded (sorted)
 }
 
 type loop struct {
@@ -169,6 +170,29 @@ func (e *Engine) LoopProgress(f *ssa.Function) []LoopRes {
 			}
 		}
 		res.Desc = ""
+		{
+			seen := map[string]bool{}
+			for b := range l.blocks {
+				inner := false
+				for lj, o := range loops {
+					if lj != li && len(o.blocks) < len(l.blocks) && o.blocks[b] && l.blocks[o.head] {
+						inner = true // belongs to a loop nested in this one
+					}
+				}
+				if inner {
+					continue
+				}
+				for _, ins := range b.Instrs {
+					if ci, ok := ins.(ssa.CallInstruction); ok {
+						if sc := ci.Common().StaticCallee(); sc != nil && !seen[sc.Name()] {
+							seen[sc.Name()] = true
+							res.Calls = append(res.Calls, sc.Name())
+						}
+					}
+				}
+			}
+			sort.Strings(res.Calls)
+		}
 		if a.in[l.head] == nil {
 			res.Why = "loop unreachable"
 			out = append(out, res)
